@@ -112,6 +112,48 @@ func registerBuffer(e *Engine) {
 
 func registerMisc(e *Engine) {
 	reg := func(name string, f Intrinsic) { e.intrinsics[name] = f }
+	// strings.Builder{addr *Builder; buf []byte}: the real one uses unsafe
+	sbuf := func(th *Thread, recv Value) Struct {
+		p := recv.(*Value)
+		if p == nil {
+			th.runtimePanic("nil pointer dereference", "nil *strings.Builder")
+		}
+		return (*p).(Struct)
+	}
+	sbWrite := func(th *Thread, b Struct, data []Value) {
+		s := b[1].(Slice)
+		add := make([]Value, len(data))
+		copy(add, data)
+		if s.a == nil {
+			s.a = []Value{}
+		}
+		b[1] = Slice{a: append(s.a, add...)}
+	}
+	reg("(*strings.Builder).Grow", func(th *Thread, fn *ssa.Function, a []Value) Value { return nil })
+	reg("(*strings.Builder).Write", func(th *Thread, fn *ssa.Function, a []Value) Value {
+		d := a[1].(Slice).a
+		sbWrite(th, sbuf(th, a[0]), d)
+		return Tuple{th.lenOf(d), nilError()}
+	})
+	reg("(*strings.Builder).WriteString", func(th *Thread, fn *ssa.Function, a []Value) Value {
+		d := a[1].(*StrVal).e
+		sbWrite(th, sbuf(th, a[0]), d)
+		return Tuple{th.lenOf(d), nilError()}
+	})
+	reg("(*strings.Builder).WriteByte", func(th *Thread, fn *ssa.Function, a []Value) Value {
+		sbWrite(th, sbuf(th, a[0]), []Value{a[1]})
+		return nilError()
+	})
+	reg("(*strings.Builder).String", func(th *Thread, fn *ssa.Function, a []Value) Value {
+		return &StrVal{e: append([]Value{}, sbuf(th, a[0])[1].(Slice).a...)}
+	})
+	reg("(*strings.Builder).Len", func(th *Thread, fn *ssa.Function, a []Value) Value {
+		return th.lenOf(sbuf(th, a[0])[1].(Slice).a)
+	})
+	reg("(*strings.Builder).Reset", func(th *Thread, fn *ssa.Function, a []Value) Value {
+		sbuf(th, a[0])[1] = Slice{}
+		return nil
+	})
 	reg("reflect.TypeOf", func(th *Thread, fn *ssa.Function, a []Value) Value {
 		iv := a[0].(Iface)
 		if iv.t == nil {
@@ -119,6 +161,8 @@ func registerMisc(e *Engine) {
 		}
 		return th.rtypeIface(iv.t)
 	})
+	reg("internal/stringslite.Clone", func(th *Thread, fn *ssa.Function, a []Value) Value { return a[0] })
+	reg("strings.Clone", func(th *Thread, fn *ssa.Function, a []Value) Value { return a[0] })
 	reg("io.ReadAll", func(th *Thread, fn *ssa.Function, a []Value) Value {
 		r := a[0].(Iface)
 		// harness readers expose their whole content through ReadAllVerif
